@@ -197,8 +197,7 @@ def signature(clause, job, res, line):
         if f:
             return "c03:%s:client=%s:server=%s" % (clause, rc.get(f), rs.get(f))
         return "c03:%s:psk=%s:retry=%s:versions=%s/%s" % (clause, k["cpsk"], k["retry"], ",".join(k["cv"]), ",".join(k["sv"]))
-    return "c03:%s:cert=%s:psk=%d%d:creq=%s:retry=%s:tamper=%s" % (
-        clause, job["ident"], k["cpsk"], k["spsk"], k["creq"], k["retry"], (job.get("tamper") or {}).get("msg", "none"))
+    return "c03:%s:tamper=%s" % (clause, (job.get("tamper") or {}).get("msg", "none"))
 
 
 def judge(check, jobs, results, name):
@@ -333,9 +332,10 @@ def run(check):
             jobs.append({"k": k, "ident": IDENT_OF_KIND[k["cert"]][0], "tamper": {"msg": tk, "pos": pos, "mask": rnd.choice(MASKS)},
                          "script": [], "seed": 77, "class": "R:tamper"})
     stride = 7 if quick else 1
-    sweep_info = {}
+    sweep_info, refs_complete = {}, True
     for (name, k, ident), ref, rj in zip(sweeps, sweep_res, sweep_refs):
         if sorted(ref["done"]) != ["c", "s"]:
+            refs_complete = False
             check.drift("c03:model:sweep-reference-run-did-not-complete:" + name, {"job": rj, "codes": ref["codes"]})
         sweep_info[name] = dict(ref["msgs"])
         for msg, n in sorted(ref["msgs"].items()):
@@ -387,7 +387,7 @@ def run(check):
     check.cov["runs_with_api_exception"] = sum(1 for r in all_res if r["raised"])
     check.cov["termination_codes_seen"] = sorted({c for r in all_res for _, c in r["codes"]})[:40]
     missing = [m for m in SERVER_MSGS + CLIENT_MSGS if m not in altered]
-    if missing:
+    if missing and refs_complete:     # (a tree on which no handshake completes has no client flight to alter: reported as drift above)
         raise MachineryError("no run delivered an altered byte of: " + ",".join(missing))
     for want_cls in (lambda j, r: j["tamper"] and r["tampered"] and j["tamper"]["msg"] == "CERT",
                      lambda j, r: not has_common(j["k"]),
